@@ -42,6 +42,11 @@ const reqQ = 250
 // answer to a single request.  Clients request 16 kB.
 const maxRequestLength = 128 * 1024
 
+// maxPieces bounds the piece indexes we accept while the number of pieces
+// is not known yet: a torrent cannot have more pieces than fit in the
+// largest metadata that we accept (128 MB, 20 bytes per piece).
+const maxPieces = 128 * 1024 * 1024 / 20
+
 type Requested struct {
 	Index, Begin, Length uint32
 }
@@ -831,6 +836,9 @@ func handleMessage(peer *Peer, m protocol.Message) error {
 		writeEvent(peer, TorPeerInterested{peer, false})
 	case protocol.Have:
 		if peer.Info != nil && m.Index >= uint32(numPieces(peer)) {
+			return ErrRange
+		}
+		if peer.Info == nil && m.Index >= maxPieces {
 			return ErrRange
 		}
 		if !peer.bitmap.Get(int(m.Index)) {
